@@ -1,27 +1,43 @@
 #!/usr/bin/env python3
-"""usage: record_seeded.py <src dir (patch.diff demo.rs notes.md confirm.json try.log)> <Cxx> <seeded id> "<needs>"
-Copies a confirmed seeded change into /verif/seeded/<id>/ and writes meta.json."""
-import sys, os, json, shutil, re, subprocess
-src, pid, sid, needs = sys.argv[1:5]
+"""usage: record_seeded.py <src dir (patch.diff demo.rs notes.md confirm.json try.log)> <Cxx> <seeded id>
+Copies a confirmed seeded change into /verif/seeded/<id>/ and writes meta.json (which property it breaks, what it needs
+in order to manifest, what was run and what the check said)."""
+import sys, os, json, shutil, re
+src, pid, sid = sys.argv[1:4]
 ROOT = os.path.dirname(os.path.dirname(os.path.abspath(__file__)))
+conf = json.load(open(os.path.join(src, "confirm.json")))
+if not conf.get("confirmed"):
+    print(sid, "not confirmed, not recorded:", {k: conf.get(k) for k in ("applies", "demo_without_patch", "demo_with_patch", "existing_tests_with_patch")})
+    sys.exit(1)
 dst = os.path.join(ROOT, "seeded", sid)
 os.makedirs(dst, exist_ok=True)
 for f in ("patch.diff", "demo.rs", "notes.md"):
     shutil.copy(os.path.join(src, f), os.path.join(dst, f))
-conf = json.load(open(os.path.join(src, "confirm.json")))
-log = open(os.path.join(src, "try.log")).read()
+notes = open(os.path.join(src, "notes.md")).read().strip()
+lines = [l for l in notes.splitlines() if l.strip()]
+needs = ""
+m = re.search(r"(?is)(needed? (?:for it )?to manifest|what is needed|trigger|manifest)[^\n]*\n(.*?)(\n\s*\n|\n#|$)", notes)
+if m:
+    needs = (m.group(0)).strip()[:700]
+log = open(os.path.join(src, "try.log")).read() if os.path.exists(os.path.join(src, "try.log")) else ""
 viol = [l for l in log.splitlines() if l.startswith("VIOLATION")]
 summ = [l for l in log.splitlines() if re.match(r"C\d+ (quick|thorough):", l)]
+replay = None
+if viol:
+    mm = re.search(r"replay=(\S+)", viol[0])
+    if mm and os.path.exists(mm.group(1)) and os.path.exists(os.path.join(src, "replay.json")):
+        replay = "replay.json"
+        shutil.copy(os.path.join(src, "replay.json"), os.path.join(dst, "replay.json"))
 meta = {
     "property": pid,
-    "breaks": open(os.path.join(src, "notes.md")).read().strip().splitlines()[0][:300],
-    "needs_to_manifest": needs,
-    "confirmed": {
-        "how": "tools/confirm_seeded.sh in a scratch worktree of /repo: demo (tests/zz_seeded_demo.rs) passes without the patch and fails with it; the listed existing lib tests pass with the patch",
-        **conf},
+    "breaks": lines[0].lstrip("# ").strip()[:400] if lines else "",
+    "needs_to_manifest": needs or "see notes.md",
+    "origin": "written by a sub-agent that was given only the property record and a scratch worktree of the repository (nothing from /verif)",
+    "confirmed": dict(conf, how="tools/confirm_seeded.py in the scratch worktree /tmp/wt/confirm: demo (tests/zz_seeded_demo.rs) passes on the pristine tree and fails with the patch; the whole baseline suite (cargo nextest command of BASELINE.json) still passes every stable_pass test with the patch"),
     "check_result": {
-        "command": "tools/try_seeded.sh patch.diff %s quick (git -C /repo apply; ./check %s --tier quick; git -C /repo checkout -- .)" % (pid, pid),
-        "detected": bool(viol), "violation_line": viol[0] if viol else None, "summary_line": summ[-1] if summ else None},
+        "command": "tools/try_seeded.sh patch.diff %s quick  (git -C /repo apply; ./check %s --tier quick; git -C /repo checkout -- .)" % (pid, pid),
+        "detected": bool(viol), "violation_line": viol[0] if viol else None, "summary_line": summ[-1] if summ else None,
+        "replay_copy": replay},
 }
 json.dump(meta, open(os.path.join(dst, "meta.json"), "w"), indent=1)
-print(sid, "detected" if viol else "MISSED", conf)
+print(sid, "detected" if viol else "MISSED")
